@@ -1,6 +1,8 @@
 #ifndef CHESS_ENGINE_UTILS_H_
 #define CHESS_ENGINE_UTILS_H_
 
+#include "verif_hooks.h"
+
 namespace engine
 {
 
@@ -63,6 +65,7 @@ namespace engine
 #define EXIT_SEARCH(val)                                            \
     {                                                               \
         Value ret = (val);                                          \
+        VERIF_EVENT(::engine::verif::EV_NODE_EXIT, info->_ply, ret); \
         LOG_DEBUG("[%d] EXIT SEARCH score=%ld", info->_ply, ret); \
         return ret;                                                 \
     }
@@ -70,6 +73,7 @@ namespace engine
 #define EXIT_QSEARCH(val)                                                       \
     {                                                                           \
         Value ret = (val);                                                      \
+        VERIF_EVENT(::engine::verif::EV_NODE_EXIT, info->_ply, ret);            \
         LOG_DEBUG("[%d] EXIT QUIESCENCE_SEARCH score=%ld", info->_ply, ret);  \
         return ret;                                                             \
     }
